@@ -1,8 +1,8 @@
 (* C16 — date-time builtins encode and decode the calendar exactly. Property theorems only (proofs: TimeFacts.v).
    days_from_civil / civil_from_days and the float layer below are the definitions call_time (Time.v, extracted) is built from. *)
 From Flocq Require Import Core BinarySingleNaN.
-Require Import ZArith NArith Bool List Arith. Import ListNotations.
-Require Import F64 Dec Types Generic Lang Builtins Time TimeFacts GenBuiltins.
+Require Import ZArith NArith Bool List Arith Lia Reals. Import ListNotations.
+Require Import F64 Dec Types Generic Lang Builtins Time TimeFacts IndexFacts FracFacts CalFacts GenBuiltins.
 Open Scope Z_scope.
 
 (* the calendar round trip for EVERY year in Z (a 400-year sweep by vm_compute lifted by periodicity) *)
@@ -26,3 +26,70 @@ Theorem C16_leap_rule : forall y, is_leap y = (y mod 4 =? 0) && (negb (y mod 100
 Proof. reflexivity. Qed.
 Theorem C16_ms_per_day_is_the_codes : gen_ms_per_day = Z.to_N MSD.
 Proof. reflexivity. Qed.
+
+(* ---- the same facts as a caller of the builtins observes them (call_time is the extracted model the correspondence check runs) ----
+   instant y m d h mi s ml = days_from_civil y m d * 86400000 + ((h*60+mi)*60+s)*1000+ml milliseconds; of_ms M = the Number M / 86400000 *)
+Theorem C16_components_recovered : forall y m d h mi s ml, valid_date y m d = true -> 1 <= y <= 9999 -> valid_tod h mi s ml ->
+  let x := of_ms (instant y m d h mi s ml) in
+  call_time year_n [x] = num y /\ call_time month_n [x] = num m /\ call_time day_n [x] = num d /\
+  call_time hour_n [x] = num h /\ call_time minute_n [x] = num mi /\ call_time second_n [x] = num s /\ call_time millisecond_n [x] = num ml /\
+  call_time day_of_week_n [x] = num ((days_from_civil y m d + 3) mod 7) /\ call_time is_leap_year_n [x] = BOk (VBool (is_leap y)).
+Proof. exact components_recovered. Qed.
+Print Assumptions C16_components_recovered.
+(* the hypotheses are satisfiable, and 1970-01-01 was a Thursday (Monday = 0) *)
+Example C16_components_nonvacuous : valid_date 2024 2 29 = true /\ 1 <= 2024 <= 9999 /\ valid_tod 23 59 59 999 /\ (days_from_civil 1970 1 1 + 3) mod 7 = 3.
+Proof. unfold valid_tod. repeat split; try lia; reflexivity. Qed.
+(* encode_date on whole-number arguments yields exactly the day number for a date that exists and an error for one that does not *)
+Theorem C16_encode_date : forall y m d, 1 <= y <= 9999 -> 0 <= m <= 2^31 -> 0 <= d <= 2^31 ->
+  call_time encode_date_n [zi y; zi m; zi d] = if valid_date y m d then BOk (of_ms (days_from_civil y m d * MSD)) else BErr CustomError.
+Proof. exact encode_date_builtin. Qed.
+Theorem C16_nonexistent_dates_rejected : forall y, 1 <= y <= 9999 ->
+  call_time encode_date_n [zi y; zi 13; zi 1] = BErr CustomError /\ call_time encode_date_n [zi y; zi 2; zi 30] = BErr CustomError /\
+  call_time encode_date_n [zi y; zi 1; zi 0] = BErr CustomError /\ call_time encode_date_n [zi y; zi 0; zi 1] = BErr CustomError /\
+  call_time encode_date_n [zi y; zi 4; zi 31] = BErr CustomError /\ (is_leap y = false -> call_time encode_date_n [zi y; zi 2; zi 29] = BErr CustomError).
+Proof. exact nonexistent_dates_rejected. Qed.
+Theorem C16_encode_time : forall h mi s ml, 0 <= h <= 2^31 -> 0 <= mi <= 2^31 -> 0 <= s <= 2^31 -> 0 <= ml < 1000 ->
+  call_time encode_time_n [zi h; zi mi; zi s; zi ml] = if (h <? 24) && (mi <? 60) && (s <? 60) then BOk (of_ms (tod_ms h mi s ml)) else BErr CustomError.
+Proof. exact encode_time_builtin. Qed.
+Theorem C16_encode_time_default_ms : forall h mi s, 0 <= h <= 2^31 -> 0 <= mi <= 2^31 -> 0 <= s <= 2^31 ->
+  call_time encode_time_n [zi h; zi mi; zi s] = if (h <? 24) && (mi <? 60) && (s <? 60) then BOk (of_ms (tod_ms h mi s 0)) else BErr CustomError.
+Proof. exact encode_time_default_ms. Qed.
+Theorem C16_negative_components_rejected : forall h mi s, ge0 h && ge0 mi && ge0 s = false -> call_time encode_time_n [VNum h; VNum mi; VNum s] = BErr CustomError.
+Proof. exact neg_rejected. Qed.
+(* the numbers produced: M ms is the double nearest to M / 86400000, a whole number of days exactly (days since 1970-01-01, time of day as the fraction) *)
+Theorem C16_number_produced : forall M, Z.abs M <= 2^52 ->
+  of_ms M = VNum (fdiv (of_int M) fD) /\ B2R (fdiv (of_int M) fD) = round radix2 (FLT_exp (3 - F64.emax - F64.prec) F64.prec) ZnearestE (IZR M / 86400000)%R /\ is_finite (fdiv (of_int M) fD) = true.
+Proof. exact of_ms_R. Qed.
+Theorem C16_whole_days_exact : forall k, Z.abs k <= 2^23 -> B2R (fdiv (of_int (k * MSD)) fD) = IZR k.
+Proof. exact whole_days_exact. Qed.
+(* inc_month: the month index y*12+(m-1) moves by k, the time of day is kept, the day is clamped to the target month's length *)
+Theorem C16_inc_month : forall y m d h mi s ml k, valid_date y m d = true -> 1 <= y <= 9999 -> valid_tod h mi s ml -> - 2^31 < k < 2^31 ->
+  let t := y * 12 + (m - 1) + k in let y' := t / 12 in let m' := t mod 12 + 1 in
+  -262143 <= y' <= 262142 ->
+  call_time inc_month_n [of_ms (instant y m d h mi s ml); zi k] = BOk (of_ms (instant y' m' (Z.min d (dim y' m')) h mi s ml)) /\
+  valid_date y' m' (Z.min d (dim y' m')) = true /\ y' * 12 + (m' - 1) = y * 12 + (m - 1) + k.
+Proof. exact inc_month_builtin. Qed.
+Theorem C16_inc_month_default : forall v, call_time inc_month_n [v] = call_time inc_month_n [v; VNum (of_int 1)].
+Proof. exact call_inc_month1. Qed.
+Example C16_inc_month_clamps : let t := 2023 * 12 + (1 - 1) + 1 in (t / 12, t mod 12 + 1, Z.min 31 (dim (t / 12) (t mod 12 + 1))) = (2023, 2, 28).
+Proof. reflexivity. Qed.
+(* date(x) + time(x) = x for every finite number *)
+Theorem C16_date_plus_time : forall x, is_finite x = true ->
+  exists dx tx, call_time date_n [VNum x] = BOk (VNum dx) /\ call_time time_n [VNum x] = BOk (VNum tx) /\ feq (fadd dx tx) x = true.
+Proof. exact date_plus_time. Qed.
+(* default-format texts *)
+Theorem C16_date_to_string : forall y m d h mi s ml, valid_date y m d = true -> 1 <= y <= 9999 -> valid_tod h mi s ml ->
+  let x := of_ms (instant y m d h mi s ml) in
+  call_time date_to_string_n [VStr fmt_date; x] = BOk (VStr (show_date y m d)) /\
+  call_time date_to_string_n [VStr fmt_time; x] = BOk (VStr (show_time h mi s)) /\
+  call_time date_to_string_n [VStr fmt_dt; x] = BOk (VStr (show_date y m d ++ [32%N] ++ show_time h mi s)).
+Proof. exact date_to_string_builtin. Qed.
+Theorem C16_string_to_date : forall y m d, 0 <= y <= 9999 -> 0 <= m <= 99 -> 0 <= d <= 99 ->
+  call_time string_to_date_n [VStr (show_date y m d)] = if valid_date y m d then BOk (of_ms (days_from_civil y m d * MSD)) else BErr CustomError.
+Proof. exact string_to_date_builtin. Qed.
+Theorem C16_string_to_time : forall h mi s, valid_tod h mi s 0 -> call_time string_to_time_n [VStr (show_time h mi s)] = BOk (of_ms (tod_ms h mi s 0)).
+Proof. exact string_to_time_builtin. Qed.
+Theorem C16_string_to_datetime : forall y m d h mi s, valid_date y m d = true -> 0 <= y <= 9999 -> valid_tod h mi s 0 ->
+  call_time string_to_datetime_n [VStr (show_date y m d ++ [32%N] ++ show_time h mi s)] = BOk (of_ms (instant y m d h mi s 0)).
+Proof. exact string_to_datetime_builtin. Qed.
+Print Assumptions C16_inc_month. Print Assumptions C16_date_plus_time. Print Assumptions C16_string_to_datetime. Print Assumptions C16_number_produced.
